@@ -200,8 +200,9 @@ func checkC04(r *Run) {
 		"every slice/index/make/unchecked-assertion obligation and every encoding/binary Put precondition in the functions CHA-reachable from Codec.Unmarshal and DecodeDir is entailed by dominating guards, loop invariants, make-length equalities and type ranges (narrow unsigned arithmetic is not assumed wrap-free)",
 		"no explicit panic is reachable from those entry points",
 		"every allocation whose size comes from the wire is either 16-bit sized (constant bound, reported with its element size) or dominated, on every feasible edge, by a comparison of the claimed size with the remaining input length; every decoder in the module is built over a reader that has Len()",
-		"an unknown type byte yields an error before any message is built; every error of the decode path is propagated")
-	r.NotDecided = append(r.NotDecided, "re-encode/decode stability (value level; its layout half is C01's grammar agreement)", "termination (each loop consumes input or errors: argued, not checked)", "allocation inside reflect/bytes")
+		"an unknown type byte yields an error before any message is built; every error of the decode path is propagated",
+		"decode performs, for every field type, exactly the mirror image of what encode emits (and nothing else, e.g. no value-dependent special cases): the structural half of 'decode, re-encode, decode again is stable'")
+	r.NotDecided = append(r.NotDecided, "re-encode/decode stability as a value statement (its layout half — decode mirrors encode per type — is decided)", "termination (each loop consumes input or errors: argued, not checked)", "allocation inside reflect/bytes")
 	r.Trusted = append(r.Trusted, "encoding/binary.Read, io.ReadFull, reflect")
 
 	roots, scope := decodeScope(p)
@@ -220,6 +221,8 @@ func checkC04(r *Run) {
 	}
 	r.OkTrivial("panic-reach", fmt.Sprintf("decode scope: %d functions reachable, %d explicit panics", nReach, len(sites)), token.NoPos)
 
+	// decode mirrors encode type by type (the layout half of decode/re-encode stability): shared with C01
+	c01Grammar(r)
 	c04Alloc(r, scope)
 	c04Errors(r, scope)
 	c04UnknownType(r)
